@@ -658,6 +658,15 @@ func ConnectionEnd(d *fw.Driver, res *fw.Result, seed int64, thorough bool) erro
 	if err := rawEnd(res, seed, "stalled-writer-server-cancel", base); err != nil {
 		return err
 	}
+	// the same with one keepalive ping from the peer while the writer is stalled
+	base += 50
+	if err := rawEnd(res, seed, "stalled-writer-ping-closeframe", base); err != nil {
+		return err
+	}
+	base += 50
+	if err := rawEnd(res, seed, "stalled-writer-ping-server-cancel", base); err != nil {
+		return err
+	}
 	base += 50
 	return rawEnd(res, seed, "reverse-call-write-fails-rst", base)
 }
@@ -713,7 +722,7 @@ func rawEnd(res *fw.Result, seed int64, mode string, base int) error {
 			tc.SetLinger(0)
 		}
 		conn.Close()
-	case "stalled-writer-fin", "stalled-writer-server-cancel":
+	case "stalled-writer-fin", "stalled-writer-server-cancel", "stalled-writer-ping-closeframe", "stalled-writer-ping-server-cancel":
 		// a response far larger than the socket buffers, to a peer that never reads: the writer holds the
 		// write lock, the pinger queues behind it
 		conn.WriteMessage(websocket.TextMessage, []byte(fmt.Sprintf(`{"jsonrpc":"2.0","id":2,"method":"SH.Echo","params":[%d,%d]}`, base+2, 48<<20)))
@@ -738,10 +747,22 @@ func rawEnd(res *fw.Result, seed int64, mode string, base int) error {
 		if stalledSince.IsZero() || time.Since(stalledSince) < 80*time.Millisecond {
 			res.Note("raw-end stalled-writer: the response writer did not stall (socket buffers took the whole response); scenario not exercised")
 		}
-		if mode == "stalled-writer-server-cancel" {
+		if strings.HasPrefix(mode, "stalled-writer-ping-") {
+			// the peer's keepalive goes on independently of its reader: one ping arrives while the response
+			// writer holds the write lock
+			conn.WriteControl(websocket.PingMessage, []byte("k"), time.Now().Add(time.Second))
+			time.Sleep(150 * time.Millisecond)
+		}
+		switch mode {
+		case "stalled-writer-server-cancel", "stalled-writer-ping-server-cancel":
 			e.SrvCancel()
-		} else if tc != nil {
-			tc.CloseWrite()
+		case "stalled-writer-ping-closeframe":
+			// a close frame; closing TCP is left to the server, as RFC 6455 asks of clients
+			conn.WriteControl(websocket.CloseMessage, websocket.FormatCloseMessage(websocket.CloseNormalClosure, ""), time.Now().Add(time.Second))
+		default:
+			if tc != nil {
+				tc.CloseWrite()
+			}
 		}
 	case "partial-frame-server-cancel":
 		w, werr := conn.NextWriter(websocket.TextMessage)
